@@ -28,6 +28,15 @@ def layouts(rng, keys, dels):
             if rng.random() < 0.5:
                 plan.append(("commit", [], {"optimize": True}))
         out.append(plan)
+    if len(keys) >= 9:
+        # a bulk load, then many small commits under the default merge policy (which merges the small segments
+        # from a certain number on and has to carry the larger ones over untouched)
+        nsmall = min(7, len(keys) - 2)
+        bulk, small = keys[:len(keys) - nsmall], keys[len(keys) - nsmall:]
+        plan = [("commit", bulk, {"merge": False})] + [("commit", [k], {"merge": True}) for k in small]
+        if dels:
+            plan.append(("delete", dels))
+        out.append(plan)
     return out
 
 
@@ -41,7 +50,7 @@ def check(run):
                 "BM25F scores compared across deletion-free layouts; non-trivial = accepted layout with >= 3 documents")
     cases = []
     for wi in range(6 if quick else 50):
-        n = rng.randrange(4, 9 if quick else 14)
+        n = rng.randrange(4, 9 if quick else 14) if wi % 3 != 2 else rng.randrange(10, 15)
         keys = ["k%d" % i for i in range(n)]
         adocs = dict((k, cworld.rand_adoc(rng, k)) for k in keys)
         if wi % 3 == 1:
@@ -141,6 +150,34 @@ def check(run):
                                                             "err": type(ex).__name__, "msg": str(ex)[:160],
                                                             "where": content.where(ex)}],
                               "cfg": cfg, "plan": plan, "seed": si, "adocs": adocs, "variant": si})
+        finally:
+            w.close()
+    # "bulk load, then trickle": one large commit followed by many small ones under the default merge policy -
+    # it merges the small segments from time to time and must carry the large one over (judged: the live keys)
+    for ti in range(2 if quick else 8):
+        nb = rng.randrange(36, 70)
+        keys = ["t%03d" % i for i in range(nb + 12)]
+        adocs = dict((k, cworld.rand_adoc(rng, k, rich=False)) for k in keys)
+        plan = [("commit", keys[:nb], {"merge": False})] + [("commit", [k], {"merge": True}) for k in keys[nb:]]
+        if ti % 2 == 1:
+            plan.insert(7, ("delete", [keys[3], keys[nb + 1]]))
+        cfg = {"storage": "ram", "compound": True, "scenario": "bulk load, then trickle", "bulk": nb}
+        w = cworld.CWorld(cfg, variant=ti)
+        try:
+            try:
+                w.run(adocs, plan)
+                with w.reader() as rd:
+                    idx = cworld.abstract_index(rd, adocs)
+                    obs = [o for o in cworld.dump(rd, idx, rd.schema, rng=rng, maxterms=0, columns=False, vectors=False,
+                                                  terminfo=False, plan=plan) if o["kind"] in ("livekeys", "counts", "error")]
+                    run.count(len(obs))
+                cases.append({"idx": idx, "obs": obs, "cfg": cfg, "plan": "bulk of %d, then 12 single commits" % nb,
+                              "seed": ti, "adocs": None, "variant": ti})
+            except Exception as ex:
+                cases.append({"idx": {"docs": []}, "obs": [{"kind": "error", "path": "bulk load, then trickle",
+                                                            "err": type(ex).__name__, "msg": str(ex)[:160],
+                                                            "where": content.where(ex)}],
+                              "cfg": cfg, "plan": None, "seed": ti, "adocs": None, "variant": ti})
         finally:
             w.close()
     rejects = content.judge(run, cases)
